@@ -25,9 +25,14 @@ def setup_path():
     os.environ.setdefault("NUMBA_NUM_THREADS", "1")
 
 
-def import_wb():
-    """import wannierberri from REPO and verify that it really comes from there"""
+def import_wb(fake_ray=True):
+    """import wannierberri from REPO and verify that it really comes from there.
+    By default a stand-in for `ray` (vlib/fakeray.py, not initialised => serial mode) is installed
+    first, so that the library never imports the real ray (seconds per process, atexit hooks)."""
     setup_path()
+    if fake_ray and "ray" not in sys.modules:
+        from . import fakeray
+        fakeray.install()
     with quiet():
         import wannierberri
     path = os.path.dirname(os.path.abspath(wannierberri.__file__))
